@@ -1830,6 +1830,11 @@ void move_object (object_t * item, object_t * dest) {
       if (ob->flags & O_DESTRUCTED)
         error ("*An object was destructed at call of " APPLY_INIT "()");
 
+      /* an earlier init() sent this object elsewhere: its next_inv chain is the
+       * inventory of another object, there is nothing of dest left to follow */
+      if (ob->super != dest)
+        break;
+
       if (ob->flags & O_ENABLE_COMMANDS)
         {
           command_giver = ob;
@@ -1859,6 +1864,12 @@ void move_object (object_t * item, object_t * dest) {
               return;
             }
         }
+
+      /* the successor saved before the calls may have been moved out of dest by
+       * them; as long as ob itself is still here, its own link is the one to trust */
+      if (next_ob && !(next_ob->flags & O_DESTRUCTED) && next_ob->super != dest
+          && ob->super == dest && !(ob->flags & O_DESTRUCTED))
+        next_ob = ob->next_inv;
     }
 
   if (dest->flags & O_DESTRUCTED)	/* marion */
